@@ -792,7 +792,7 @@ func enumPos(idx int) []byte {
 // ---------------------------------------------------------------------------------------------
 
 const (
-	enumCases   = 64   // cases 0..63 enumerate the three grammars completely
+	enumCases   = 61   // cases 0..60 enumerate the three grammars completely (prime stride: every case sees every grammar alternative)
 	perCaseRand = 2000 // random inputs per later case
 )
 
@@ -800,7 +800,7 @@ func TestC33(t *testing.T) {
 	kit.Main(t, kit.Spec{
 		ID:    "C33",
 		Level: "exploration",
-		Rule: "cases 0..63 enumerate completely three small grammars of hostile PUB/SUB payloads through extractPushData: (a) \"__\"+t+s, t in jlpd, s over the alphabet \"_:10-pdx\", len(s)<=5 (149,796 strings); " +
+		Rule: "cases 0..60 enumerate completely three small grammars of hostile PUB/SUB payloads through extractPushData: (a) \"__\"+t+s, t in jlpd, s over the alphabet \"_:10-pdx\", len(s)<=5 (149,796 strings); " +
 			"(b) delta headers hd+O:E:L1:P+S+L2:Q with numeric fields from {-1,0,..,5,MaxInt64,MaxInt64+1,MinInt64,x,'',+1,01}, offsets incl. 2^64-1 and 2^64, epochs incl. '' and 'a:b' (987,840 strings); (c) positioned headers around the 3-byte \"p1:\" prefix (324 strings). " +
 			"Every later case draws 2000 inputs: 40% valid frames (plain protobuf / __p1:offset:epoch__payload / __d1:offset:epoch:len:prev:len:payload / __j__ / __l__) with payload and previous-payload bytes that are empty, header-like, rich in '_' ':' digits, or up to 70 kB random, offsets from {0, small, 2^63±1, 2^64-1, powers of two, uniform}, epochs '' / 8 letters / letters-digits-dot-dash, checked for the identical decoded tuple; " +
 			"10% valid frames with real protobuf Publication/ClientInfo bodies through the complete receiving side handleRedisClientMessage with a recording BrokerEventHandler (channel, data, position, delta flag, previous publication); " +
